@@ -79,7 +79,9 @@ def _decode_model(env, model_vals):
     from . import xa
     vals = {}
     for name, d in env.decl.items():
-        if d.kind in ("real", "pos"):
+        if d.kind == "int":
+            vals[name] = int(model_vals.get(name, d.lo if getattr(d, "lo", None) is not None else 0))
+        elif d.kind in ("real", "pos"):
             vals[name] = model_vals.get(name, 1.0 if d.kind == "pos" else (d.lo if getattr(d, "lo", None) is not None else 0.0))
         elif d.kind == "cplx":
             vals[name + ".re"] = model_vals.get(name + ".re", 0.0)
@@ -106,7 +108,9 @@ def _model_to_floats(model):
             continue
         v = model[dcl]
         try:
-            if z3.is_rational_value(v):
+            if z3.is_int_value(v):
+                out[dcl.name()] = v.as_long()
+            elif z3.is_rational_value(v):
                 out[dcl.name()] = v.numerator_as_long() / v.denominator_as_long()
             elif z3.is_algebraic_value(v):
                 out[dcl.name()] = float(v.approx(30).as_fraction())
@@ -324,6 +328,10 @@ def run_instance(modname, hname, params, opts, conn=None):
                         nenv = run_num(harness, params, vals)
                         bad_assume = [l for l, ok in nenv.num_assumptions if not ok]
                         nrec = [r_ for r_ in nenv.records if r_[0] == name]
+                        if getattr(harness, "replay_any", False) and not bad_assume:
+                            # the num-mode harness states the end-to-end property; any failing record reproduces
+                            failing = [r_ for r_ in nenv.records if num_record_fails(r_)[0]]
+                            nrec = failing[:1] or nenv.records[:1]
                         if bad_assume:
                             ob["replay"] = "assumption-not-met:%s" % bad_assume[:3]
                         elif not nrec:
